@@ -1,2 +1,85 @@
-//! E2: deviation-bounded stateless exploration of schedules (choice-prefix DFS over the seams of
-//! `blockwatch::verif_hooks`).
+//! E2: stateless exploration of schedules (choice-prefix DFS over the seams of
+//! `blockwatch::verif_hooks`). The real code is re-executed once per schedule; every decision it
+//! asks the explorer for (which JoinSet task delivers next, which "thread" body runs next) is
+//! answered from a recorded prefix and then by the default 0; every alternative of every decision
+//! beyond the prefix is scheduled for exploration. Optionally bounded by the number of
+//! deviations (non-default answers).
+
+use crate::librun::{self, Input, Outcome};
+use blockwatch::verif_hooks::Choice;
+use std::collections::HashMap;
+
+#[derive(Clone, Debug, Default)]
+pub struct Stats {
+    pub schedules: u64,
+    pub max_choice_points: usize,
+    pub max_deviations: usize,
+    /// Set when the schedule cap was hit (the exploration is then not exhaustive).
+    pub capped: bool,
+    pub divergence: Option<String>,
+}
+
+fn streams(prefix: &[(String, usize)]) -> HashMap<String, Vec<usize>> {
+    let mut map: HashMap<String, Vec<usize>> = HashMap::new();
+    for (label, chosen) in prefix {
+        map.entry(label.clone()).or_default().push(*chosen);
+    }
+    map
+}
+
+/// Explores every schedule of `input` (up to `deviation_bound` non-default answers, and at most
+/// `cap` schedules) and calls `visit` with each execution's outcome and trace.
+pub fn explore(input: &Input, deviation_bound: Option<usize>, cap: u64, mut visit: impl FnMut(&Outcome, &[Choice])) -> Stats {
+    let mut stats = Stats::default();
+    let mut stack: Vec<Vec<(String, usize)>> = vec![Vec::new()];
+    while let Some(prefix) = stack.pop() {
+        if stats.schedules >= cap {
+            stats.capped = true;
+            break;
+        }
+        let mut run_input = input.clone();
+        run_input.choices = streams(&prefix);
+        let (outcome, trace, diverged) = librun::run_traced(&run_input);
+        stats.schedules += 1;
+        if let Some(d) = diverged {
+            stats.divergence = Some(d);
+            break;
+        }
+        // Replaying a prefix must reproduce it exactly.
+        if trace.len() < prefix.len() || prefix.iter().zip(&trace).any(|((l, c), t)| *l != t.label || *c != t.chosen) {
+            stats.divergence = Some(format!("prefix {prefix:?} replayed as {:?}", trace.iter().map(|t| (&t.label, t.chosen)).collect::<Vec<_>>()));
+            break;
+        }
+        stats.max_choice_points = stats.max_choice_points.max(trace.len());
+        let deviations = |upto: usize| trace[..upto].iter().filter(|t| t.chosen != 0).count();
+        stats.max_deviations = stats.max_deviations.max(deviations(trace.len()));
+        visit(&outcome, &trace);
+        for i in (prefix.len()..trace.len()).rev() {
+            if deviation_bound.is_some_and(|b| deviations(i) + 1 > b) {
+                continue;
+            }
+            for alt in 1..trace[i].options {
+                let mut next: Vec<(String, usize)> = trace[..i].iter().map(|t| (t.label.clone(), t.chosen)).collect();
+                next.push((trace[i].label.clone(), alt));
+                stack.push(next);
+            }
+        }
+    }
+    stats
+}
+
+/// Runs one schedule twice and reports whether trace and outcome class are identical (the harness
+/// owns every choice the subject makes).
+pub fn replay_is_deterministic(input: &Input, prefix: &[(String, usize)]) -> Result<(), String> {
+    let mut run_input = input.clone();
+    run_input.choices = streams(prefix);
+    let (o1, t1, _) = librun::run_traced(&run_input);
+    let (o2, t2, _) = librun::run_traced(&run_input);
+    if t1 != t2 {
+        return Err(format!("traces differ: {t1:?} vs {t2:?}"));
+    }
+    if o1.to_json() != o2.to_json() {
+        return Err(format!("outcomes differ: {} vs {}", o1.to_json(), o2.to_json()));
+    }
+    Ok(())
+}
